@@ -34,14 +34,17 @@ JOB_TIMEOUT = 10.0            # seconds without an answer from a worker = the ca
 RETRY_TIMEOUT = 30.0         # a call that gave no answer is run once more, alone, with this limit before it counts as a hang
 MAX_TIMEOUTS = 6              # after that many calls that do not return, the remaining calls of the same entry point are skipped
 N_WORKERS = 8
+# exception classes that are an answer of the code under test; any other class is retried once and then a tool failure
+VERDICT_ERRORS = (ValueError, IndexError, TypeError, KeyError, ZeroDivisionError, AssertionError, FloatingPointError,
+                  AttributeError, NameError, OverflowError, NotImplementedError)
 
-RULE = ('all directed graphs n<=3 and undirected graphs n=4 (quick: 12 sampled n=4 graphs and 10 sampled seedings per graph; thorough: '
-        'all graphs, all seedings) with unequal weights x seedings over {-1,a,b[,c]} with at least two classes x weighted/unweighted, '
+RULE = ('all directed graphs n<=3 and undirected graphs n=4 (quick: 3 sampled seedings per n<=3 graph, 12 sampled n=4 graphs with 10 '
+        'seedings each; thorough: all graphs, all seedings), graphs on 4..7 nodes with two or three seeds (several adjacent nodes to update) with unequal weights x seedings over {-1,a,b[,c]} with at least two classes x weighted/unweighted, '
         'Propagation and DiffusionClassifier on each; structured random graphs n<=12 (undirected, directed, bipartite, disconnected, '
         'unequal dyadic weights, stored zeros, duplicate entries) x seeds as array/list/dict x node_order x n_iter x centering x scale x '
         'force_bipartite x n_neighbors x threshold x solver; direct calls of vote_update with labels >= n and nnz < n; integer '
         'embeddings with ties for the nearest-neighbour cores; random label vectors for the metrics. A case is non-trivial when the '
-        'graph has an edge, the seeds carry at least two classes and at least one node is not a seed (metrics: both '
+        'graph has an edge, the seeds carry at least two classes and at least two nodes are not seeds (Propagation, Diffusion; metrics: both '
         'vectors have a non-negative pair); distinct = distinct (entry point, input, options).')
 ASSUMPTIONS = [
     'scipy.sparse construction/products, numpy fancy indexing, np.unique, np.argsort are the substrate',
@@ -50,8 +53,8 @@ ASSUMPTIONS = [
     'np.random.shuffle applies the same permutation to any array of the same length under the same seed (used to '
     'hand the node order of node_order="random" to the model)',
     'PageRank scores of PageRankClassifier are recomputed by the harness with the same estimator (C04 owns their values)',
-    'the soft-max of DiffusionClassifier (np.exp) is outside the model: labels are checked against the exact centred '
-    'temperatures, the probability rows through the row specification',
+    'np.exp of the soft-max of DiffusionClassifier is outside the rational model: labels are checked against the exact centred '
+    'temperatures, probs_ against math.exp of them in Python within 1e-9 (and through the strong row specification)',
     'float32 sums of the vote kernel are exact on the generated weights (integers and dyadic fractions); one job per run uses '
     'weights 2^24 and 2^24+1, which float32 cannot tell apart (known finding F-C13-float32)',
 ]
@@ -171,6 +174,41 @@ def _both(algo, total):
     return [int(x) for x in labels], enc_fmat(sparse.csr_matrix(probs).toarray().tolist())
 
 
+def _observe(algo, refit):
+    """What users read: labels_, probs_, predict(), predict_proba(), transform() and the fit_* shortcuts must agree with the
+    row / column attributes that the rest of the check compares with the model. Returns a description of the first
+    inconsistency, or None."""
+    def dense(x):
+        return np.asarray(sparse.csr_matrix(x).toarray())
+    try:
+        if not np.array_equal(np.asarray(algo.labels_), np.asarray(algo.labels_row_)):
+            return 'labels_ %s differs from labels_row_ %s' % (np.asarray(algo.labels_).tolist(), np.asarray(algo.labels_row_).tolist())
+        if dense(algo.probs_).shape != dense(algo.probs_row_).shape or not np.array_equal(dense(algo.probs_), dense(algo.probs_row_)):
+            return 'probs_ differs from probs_row_'
+        if not np.array_equal(np.asarray(algo.predict()), np.asarray(algo.labels_)):
+            return 'predict() differs from labels_'
+        if not np.array_equal(np.asarray(algo.predict(columns=True)), np.asarray(algo.labels_col_)):
+            return 'predict(columns=True) differs from labels_col_'
+        if not np.array_equal(np.asarray(algo.predict_proba()), dense(algo.probs_)):
+            return 'predict_proba() differs from probs_'
+        if not np.array_equal(np.asarray(algo.predict_proba(columns=True)), dense(algo.probs_col_)):
+            return 'predict_proba(columns=True) differs from probs_col_'
+        if not np.array_equal(dense(algo.transform()), dense(algo.probs_)):
+            return 'transform() differs from probs_'
+        if not np.array_equal(dense(algo.transform(columns=True)), dense(algo.probs_col_)):
+            return 'transform(columns=True) differs from probs_col_'
+        labels, probs = np.asarray(algo.labels_).copy(), dense(algo.probs_).copy()
+        if not np.array_equal(np.asarray(refit('fit_predict')), labels):
+            return 'fit_predict differs from labels_ of fit'
+        if not np.array_equal(np.asarray(refit('fit_predict_proba')), probs):
+            return 'fit_predict_proba differs from probs_ of fit'
+        if not np.array_equal(dense(refit('fit_transform')), probs):
+            return 'fit_transform differs from probs_ of fit'
+    except (AttributeError, TypeError, ValueError, IndexError) as e:
+        return 'reading the fitted attributes raises %s: %s' % (type(e).__name__, str(e)[:120])
+    return None
+
+
 def _routed(job):
     from sknetwork.utils.format import get_adjacency_values
     kw = _seed_kwargs(job)
@@ -196,6 +234,12 @@ def exec_job(job):
         np.random.seed(job['np_seed'])
         algo = Propagation(n_iter=job['n_iter'], node_order=job['order'], weighted=job['weighted'])
         algo.fit(m, **_seed_kwargs(job))
+
+        def refit(name):
+            np.random.seed(job['np_seed'])
+            return getattr(Propagation(n_iter=job['n_iter'], node_order=job['order'], weighted=job['weighted']), name)(
+                m, **_seed_kwargs(job))
+        observe = _observe(algo, refit)
         adjacency, values, bip = _routed(job)
         n = adjacency.shape[0]
         labels, probs = _both(algo, n)
@@ -216,24 +260,33 @@ def exec_job(job):
         after = np.asarray(vote_update(adjacency.indptr.astype(np.int32), adjacency.indices.astype(np.int32), data,
                                        lab.copy(), index.astype(np.int32)))
         return {'labels': labels, 'probs': probs, 'sigma': None if sigma is None else [int(x) for x in sigma],
-                'stable': bool(np.array_equal(after, lab)), 'bipartite': bip}
+                'stable': bool(np.array_equal(after, lab)), 'bipartite': bip, 'observe': observe,
+                'n_free': int(len(index_remain))}
     if kind == 'diff':
         from sknetwork.classification import DiffusionClassifier
         algo = DiffusionClassifier(n_iter=job['n_iter'], centering=job['centering'], scale=job.get('scale', 5))
         algo.fit(gmat(job['graph']), force_bipartite=bool(job.get('force_bipartite')), **_seed_kwargs(job))
+
+        def refit(name):
+            return getattr(DiffusionClassifier(n_iter=job['n_iter'], centering=job['centering'], scale=job.get('scale', 5)),
+                           name)(gmat(job['graph']), force_bipartite=bool(job.get('force_bipartite')), **_seed_kwargs(job))
+        observe = _observe(algo, refit)
         adjacency, values, bip = _routed(job)
         labels, probs = _both(algo, adjacency.shape[0])
-        return {'labels': labels, 'probs': probs, 'bipartite': bip}
+        return {'labels': labels, 'probs': probs, 'bipartite': bip, 'observe': observe,
+                'n_free': int((values < 0).sum())}
     if kind == 'knn':
         from sknetwork.classification import NNClassifier
         from sknetwork.linalg.normalizer import normalize
         algo = NNClassifier(n_neighbors=job['k'], normalize=job['normalize'])
         algo.fit(gmat(job['graph']), **_seed_kwargs(job))
+        observe = _observe(algo, lambda name: getattr(NNClassifier(n_neighbors=job['k'], normalize=job['normalize']), name)(
+            gmat(job['graph']), **_seed_kwargs(job)))
         adjacency, values, bip = _routed(job)
         labels, probs = _both(algo, adjacency.shape[0])
         emb = normalize(adjacency, p=2) if job['normalize'] else adjacency
         return {'labels': labels, 'probs': probs, 'emb': enc_fmat(sparse.csr_matrix(emb).toarray().tolist()),
-                'values': [int(x) for x in values], 'bipartite': bip}
+                'values': [int(x) for x in values], 'bipartite': bip, 'observe': observe}
     if kind == 'knn_core':
         from sknetwork.classification import NNClassifier
         emb = np.array(job['emb'], dtype=float)
@@ -248,13 +301,16 @@ def exec_job(job):
         from sknetwork.ranking import PageRank
         algo = PageRankClassifier(damping_factor=job['damping'], solver=job['solver'], n_iter=job['n_iter'])
         algo.fit(gmat(job['graph']), **_seed_kwargs(job))
+        observe = _observe(algo, lambda name: getattr(
+            PageRankClassifier(damping_factor=job['damping'], solver=job['solver'], n_iter=job['n_iter']), name)(
+                gmat(job['graph']), **_seed_kwargs(job)))
         adjacency, values, bip = _routed(job)
         labels, probs = _both(algo, adjacency.shape[0])
         uniq = np.unique(values[values >= 0])
         pr = PageRank(job['damping'], job['solver'], job['n_iter'], 0.)
         scores = np.array([pr.fit_predict(adjacency, (values == lab).astype(int)) for lab in uniq]).T
         return {'labels': labels, 'probs': probs, 'scores': enc_fmat(scores.tolist()),
-                'values': [int(x) for x in values], 'bipartite': bip}
+                'values': [int(x) for x in values], 'bipartite': bip, 'observe': observe}
     if kind == 'link':
         from sknetwork.linkpred import NNLinker
         from sknetwork.linalg.normalizer import normalize
@@ -319,10 +375,10 @@ def worker_main(overlay_root, jobs_path):
         try:
             res = exec_job(job)
             res['status'] = 'ok'
-        except (ValueError, IndexError, TypeError, KeyError, ZeroDivisionError) as e:
+        except VERDICT_ERRORS as e:
             res = {'status': 'err', 'err': type(e).__name__, 'msg': str(e)[:200]}
-        except Exception as e:      # anything else is reported as such
-            res = {'status': 'err', 'err': type(e).__name__, 'msg': str(e)[:200]}
+        except Exception as e:      # OSError of a fork, MemoryError, ...: the machine, not the code under test
+            res = {'status': 'toolerr', 'err': type(e).__name__, 'msg': str(e)[:200]}
         out.write('R %d %s\n' % (i, json.dumps(res)))
         out.flush()
 
@@ -465,9 +521,27 @@ def _has_unlabelled(job):
     return True
 
 
-def _float32_exact(data):
-    """Are the weights (and any sum of them) exact in the float32 arithmetic of the vote kernel?"""
-    return all(float(np.float32(w)) == float(w) for w in data) and sum(abs(float(w)) for w in data) < 2 ** 24
+def _float32_exact(g):
+    """A sufficient condition for the float32 votes of the kernel to be exact on graph `g` (the routed adjacency may be the
+    matrix itself or its bipartite block form, so rows and columns are both looked at): every weight is a multiple of one
+    power of two `q`, and the sum of the absolute weights of any row or column is below 2^24 * q; then every partial sum
+    of weights of a node is an integer below 2^24 times `q`, hence a float32."""
+    data = [abs(Fraction(float(w))) for w in g['data']]
+    if not data or not any(data):
+        return True
+    if any(float(np.float32(float(w))) != float(w) for w in data):
+        return False
+    q = Fraction(1)
+    for w in data:
+        while w and (w / q).denominator != 1:
+            q /= 2
+    rows = {}
+    cols = {}
+    for i in range(len(g['indptr']) - 1):
+        for p in range(g['indptr'][i], g['indptr'][i + 1]):
+            rows[i] = rows.get(i, 0) + data[p]
+            cols[g['indices'][p]] = cols.get(g['indices'][p], 0) + data[p]
+    return max(list(rows.values()) + list(cols.values())) / q < 2 ** 24
 
 
 def job_sig(job):
@@ -478,7 +552,7 @@ def job_sig(job):
     sig = {'entry': entry}
     if kind == 'prop':
         sig.update(order=job['order'], weighted=job['weighted'], mode='seeds' if _n_classes(job) >= 2 else 'no-seeds',
-                   float32_exact=_float32_exact(job['graph']['data']))
+                   float32_exact=(not job['weighted']) or _float32_exact(job['graph']))
     elif kind == 'diff':
         sig.update(centering=job['centering'])
     elif kind == 'rank':
@@ -512,15 +586,24 @@ def cases_of(job, res):
         if res['status'] == 'ok' and res['sigma'] is not None:
             sg = enc_list(res['sigma'])
         run = 'c13.prop %s %s %s %s %s' % (gt, st, enc_bool(job['weighted']), nit, sg)
+        if not sig['float32_exact']:
+            run = None      # the model votes in exact arithmetic: it is not meant to agree where float32 rounds the votes
         impl = err or 'ok %s %s' % (enc_list(res['labels']), res['probs'])
         spec = None
-        nontriv = len(job['graph']['indices']) > 0 and _n_classes(job) >= 2 and _has_unlabelled(job)
+        # non-trivial: at least two nodes are updated (with one free node the in-place sweep, the order and the stop test
+        # are all trivial)
+        nontriv = len(job['graph']['indices']) > 0 and _n_classes(job) >= 2 and res.get('n_free', 0) >= 2
         if res['status'] == 'ok':
-            spec = 'c13.spec_prop %s %s %s %s %s' % (gt, st, enc_bool(job['weighted']), enc_list(res['labels']),
-                                                     enc_bool(res['stable']))
-        out.append(Case(key0, sig, run, impl, spec, nontriv, job, canon='prop'))
+            # labels in the seed set and seeds kept (the fixed-point item is a case of its own, below)
+            spec = 'c13.spec_prop %s %s %s %s 0' % (gt, st, enc_bool(job['weighted']), enc_list(res['labels']))
+        if run is not None or spec is not None:
+            out.append(Case(key0, dict(sig, check='labels'), run, impl, spec, nontriv, job, canon='prop'))
+        if res['status'] == 'ok' and res['stable']:
+            out.append(Case(key0 + ('fixed-point',), dict(sig, check='fixed-point'), None, impl,
+                            'c13.spec_prop %s %s %s %s 1' % (gt, st, enc_bool(job['weighted']), enc_list(res['labels'])),
+                            False, job))
         if res['status'] == 'ok':
-            out.append(Case(key0 + ('rows',), sig, None, impl, 'c13.spec_prop_rows %s %s %s %s %s' % (
+            out.append(Case(key0 + ('rows',), dict(sig, check='rows'), None, impl, 'c13.spec_prop_rows %s %s %s %s %s' % (
                 gt, st, EPS, enc_list(res['labels']), res['probs']), False, job))
         return out
     if kind == 'diff':
@@ -534,7 +617,7 @@ def cases_of(job, res):
             spec = 'c13.spec_diff %s %s %s %d %s %s %s %s %s' % (
                 gt, fb, st, job['n_iter'], enc_bool(job['centering']), EPS, enc_bool(job.get('symmetric')),
                 enc_list(res['labels']), res['probs'])
-        nontriv = len(job['graph']['indices']) > 0 and _n_classes(job) >= 2
+        nontriv = len(job['graph']['indices']) > 0 and _n_classes(job) >= 2 and res.get('n_free', 0) >= 2
         out.append(Case(key0, sig, run, impl, spec, nontriv, job, canon='diff'))
         return out
     if kind in ('knn', 'knn_core'):
@@ -805,14 +888,16 @@ def evaluate(ctx, cases):
     _evaluate(ctx, cases, same=_same)
 
 
-def _retry_timeouts(ctx, jobs, results):
+def _retry_timeouts(ctx, jobs, results, root=None):
     """A worker that is silent for JOB_TIMEOUT seconds may be a healthy job on a loaded machine: every such job is run
-    once more, alone, with RETRY_TIMEOUT; only a second silence makes it a call that does not return."""
+    once more, alone, with RETRY_TIMEOUT; only a second silence makes it a call that does not return.  A job that raised
+    an exception outside VERDICT_ERRORS (OSError of a fork, MemoryError, ...) is run once more too; a second exception of
+    that kind is a tool failure, never a verdict."""
     import concurrent.futures
-    idx = [i for i, r in enumerate(results) if r is not None and r.get('status') == 'timeout']
+    idx = [i for i, r in enumerate(results) if r is not None and r.get('status') in ('timeout', 'toolerr')]
     if not idx:
         return
-    root = ctx.overlay_root if hasattr(ctx, 'overlay_root') else ctx.ctx.overlay_root
+    root = root or (ctx.overlay_root if hasattr(ctx, 'overlay_root') else ctx.ctx.overlay_root)
 
     def one(i):
         out = [None]
@@ -820,18 +905,26 @@ def _retry_timeouts(ctx, jobs, results):
         return i, out[0]
     with concurrent.futures.ThreadPoolExecutor(max_workers=min(16, len(idx))) as ex:
         for i, res in ex.map(one, idx):
+            was = results[i].get('status')
+            if res is not None and res.get('status') == 'toolerr':
+                from vlib.core import ToolFailure
+                raise ToolFailure('C13 worker: %s: %s (twice) on %s' % (res.get('err'), res.get('msg'),
+                                                                        json.dumps(jobs[i])[:300]))
             if res is not None and res.get('status') in ('ok', 'err'):
                 results[i] = res
-                ctx.count('slow-job')
+                ctx.count('slow-job' if was == 'timeout' else 'retried-after-%s' % results[i].get('err', 'error'))
             elif res is not None and res.get('status') == 'crash':
                 results[i] = res
+            elif was == 'toolerr':
+                from vlib.core import ToolFailure
+                raise ToolFailure('C13 worker: job failed with %s, then gave no answer' % results[i].get('err'))
     # the calls skipped after the budget of time-outs are run if the time-outs were not confirmed
     if not any(r is not None and r.get('status') == 'timeout' for r in results):
         sk = [i for i, r in enumerate(results) if r is not None and r.get('status') == 'skipped']
         if sk:
-            again = run_jobs(ctx, [jobs[i] for i in sk])
+            again = run_jobs(ctx, [jobs[i] for i in sk], root=root)
             for i, r in zip(sk, again):
-                results[i] = {'status': 'skipped'} if (r is None or r.get('status') == 'timeout') else r
+                results[i] = {'status': 'skipped'} if (r is None or r.get('status') in ('timeout', 'toolerr')) else r
 
 
 def run_and_evaluate(ctx, jobs):
@@ -843,6 +936,11 @@ def run_and_evaluate(ctx, jobs):
         ctx.count('kind:' + job['kind'])
         if job['kind'] == 'prop' and res is not None and res.get('status') == 'ok':
             ctx.count('prop:stable' if res.get('stable') else 'prop:not-stable')
+            ctx.count('prop:free>=2' if res.get('n_free', 0) >= 2 else 'prop:free<=1')
+            if res.get('n_free', 0) >= 2 and job.get('order') is not None:
+                ctx.count('prop:order-matters')
+        if job['kind'] == 'diff' and res is not None and res.get('status') == 'ok':
+            ctx.count('diff:free>=2' if res.get('n_free', 0) >= 2 else 'diff:free<=1')
         if res is None:
             from vlib.core import ToolFailure
             raise ToolFailure('C13: a job returned no result')
@@ -864,11 +962,18 @@ def run_and_evaluate(ctx, jobs):
             ctx.case(('err', json.dumps(job, sort_keys=True)), True)
             ctx.spec_fail(dict(job_sig(job), failure='raises'), job, {'what': 'raises %s: %s' % (res['err'], res.get('msg'))})
             continue
+        if res['status'] == 'ok' and res.get('observe'):
+            # labels_ / probs_ / predict* (what users read) disagree with the row / column attributes
+            ctx.case(('observe', json.dumps(job, sort_keys=True)), True)
+            ctx.spec_fail(dict(job_sig(job), failure='attributes-inconsistent'), job, {'what': res['observe']})
+        elif res['status'] == 'ok' and 'observe' in res:
+            ctx.count('observed:labels_,probs_,predict*')
         cases += cases_of(job, res)
     evaluate(ctx, cases)
     if hasattr(ctx, 'extra'):
         ctx.extra['tie_skipped'] = Ties.skipped
-        ctx.extra['tolerances'] = {'EPS': EPS, 'MARGIN': MARGIN, 'JOB_TIMEOUT_s': JOB_TIMEOUT}
+        ctx.extra['tolerances'] = {'EPS': EPS, 'MARGIN': MARGIN, 'JOB_TIMEOUT_s': JOB_TIMEOUT, 'RETRY_TIMEOUT_s': RETRY_TIMEOUT}
+    return results
 
 
 # ------------------------------------------------------------------------------------------------
@@ -1016,8 +1121,11 @@ def gen_jobs(ctx, scale=1.0, mode='run'):
         if n == 3:
             seedings += [s for s in _seedings(3, (0, 1, 2)) if len(set(s)) == 3 and -1 not in s][:2]
             seedings += [[-1, 0, 1], [2, -1, 0], [1, 0, -1]]
-        if quick and not (search_mode and n <= 3) and len(seedings) > 10:
-            seedings = rng.sample(seedings, 10)
+        if quick and not (search_mode and n <= 3):
+            # quick tier: few seedings on the tiny graphs (at most one node to update there), the time goes to section 1b
+            cap = 3 if n <= 3 else 10
+            if len(seedings) > cap:
+                seedings = rng.sample(seedings, cap)
         for si, v in enumerate(seedings):
             kw = _seed_kw_square(rng, v)
             for weighted in (True, False):
@@ -1033,6 +1141,35 @@ def gen_jobs(ctx, scale=1.0, mode='run'):
                 if si == 0:
                     jobs.append({'kind': 'rank', 'graph': g, 'damping': 0.85, 'solver': 'piteration', 'n_iter': 10, **kw})
 
+    # ---- 1b. graphs with several adjacent nodes to update: n = 4..7, exactly two or three seeds
+    n_free = int((10 if search_mode else 140 if quick else 500) * (1 if search_mode else scale))
+    for t in range(n_free):
+        n = rng.randint(4, 7)
+        kind = rng.choice(['path', 'cycle', 'star', 'grid', 'random_undirected', 'random_undirected', 'blocks',
+                           'random_directed', 'dag', 'dicycle'])
+        es = graphs.structured(rng, kind, n)
+        directed = kind in graphs.DIRECTED_KINDS
+        a = _csr(n, es, _weights(rng, es, directed))
+        if rng.random() < 0.2:
+            a = graphs.unsorted_copy(a, rng)
+        g = gdesc(a)
+        k = rng.choice([2, 2, 3])
+        nodes = rng.sample(range(n), k)
+        classes = rng.sample(LABEL_POOL, 2 if k == 2 or rng.random() < 0.5 else 3)
+        v = [-1] * n
+        for q, node in enumerate(nodes):
+            v[node] = classes[q % len(classes)]
+        if rng.random() < 0.15:
+            v = [(-2 if x == -1 and rng.random() < 0.5 else x) for x in v]      # negative labels other than -1
+        kw = _seed_kw_square(rng, v)
+        ctx.count('graph:free-nodes')
+        for weighted in (True, False):
+            jobs.append(_prop_job(rng, g, kw, weighted=weighted,
+                                  order=rng.choice([None, 'increasing', 'decreasing', 'random', 'random']),
+                                  n_iter=rng.choice([-1, -1, -1, 1, 2, 3])))
+        jobs.append({'kind': 'diff', 'graph': g, 'n_iter': rng.choice([1, 2, 3, 10]), 'centering': rng.random() < 0.6,
+                     'scale': rng.choice([5, 5, 1, 2.5]), 'symmetric': not directed, **kw})
+
     if not search_mode:
         # ---- 2. structured random graphs
         n_struct = int((36 if quick else 400) * scale)
@@ -1045,12 +1182,12 @@ def gen_jobs(ctx, scale=1.0, mode='run'):
                 a = graphs.unsorted_copy(a, rng)
             g = gdesc(a)
             ctx.count('graph:' + kind)
-            v = _rand_seeding(rng, n)
+            v = _rand_seeding(rng, n, p_seed=0.25)
             kw = _seed_kw_square(rng, v)
             for weighted in (True, False):
                 jobs.append(_prop_job(rng, g, kw, weighted=weighted,
                                       order=rng.choice([None, 'increasing', 'decreasing', 'random']),
-                                      n_iter=rng.choice([-1, -1, 1, 3, 5])))
+                                      n_iter=rng.choice([-1, -1, 1, 3, 5, 0, -3])))
             jobs.append({'kind': 'diff', 'graph': g, 'n_iter': rng.choice([1, 2, 5, 10]), 'centering': rng.random() < 0.6,
                          'scale': rng.choice([5, 5, 1, 2.5]), 'symmetric': not directed, **kw})
             if rng.random() < 0.3:
@@ -1090,6 +1227,38 @@ def gen_jobs(ctx, scale=1.0, mode='run'):
         big = float(2 ** 24)
         jobs.append(_prop_job(rng, gdesc(_csr(3, [(0, 1), (0, 2), (1, 0), (2, 0)], [big, big + 1, big, big + 1])),
                               {'labels': mk_seed('dict', [-1, 0, 1])}, weighted=True, order=None, n_iter=-1))
+
+        # ---- 2d. inputs at the edges of the quantifier: seeds on the columns only, no seed at all (the refusal of
+        #          DiffusionClassifier), labels=None, a repeated index and a negative threshold for NNLinker
+        for _ in range(int((6 if quick else 40) * scale)):
+            nr, nc = rng.randint(2, 5), rng.randint(2, 5)
+            es = graphs.random_edges(rng, nr, 0.6, m=nc)
+            if not es:
+                continue
+            g = gdesc(_csr(nr, es, [rng.choice(WEIGHTS) for _ in es], m=nc))
+            vc = _rand_seeding(rng, nc, p_seed=0.7) if nc >= 2 else [1]
+            kw = {'labels_col': mk_seed(_form(rng), vc)}
+            ctx.count('graph:column-seeds-only')
+            jobs.append(_prop_job(rng, g, kw, weighted=rng.random() < 0.6, order=rng.choice([None, 'random']), n_iter=-1))
+            jobs.append({'kind': 'diff', 'graph': g, 'n_iter': rng.choice([1, 3]), 'centering': rng.random() < 0.6,
+                         'scale': 5, 'symmetric': True, **kw})
+            if _n_classes({'graph': g, **kw}) >= 2:
+                jobs.append({'kind': 'knn', 'graph': g, 'k': rng.choice([1, 2]), 'normalize': rng.random() < 0.5, **kw})
+                jobs.append({'kind': 'rank', 'graph': g, 'damping': 0.85, 'solver': 'piteration', 'n_iter': 10, **kw})
+        for _ in range(int((4 if quick else 20) * scale)):
+            n = rng.randint(3, 6)
+            es = graphs.structured(rng, rng.choice(['path', 'random_undirected', 'random_directed']), n)
+            if not es:
+                continue
+            a = _csr(n, es, [rng.choice(WEIGHTS) for _ in es])
+            g = gdesc(a)
+            jobs.append({'kind': 'diff', 'graph': g, 'n_iter': 2, 'centering': rng.random() < 0.5, 'scale': 5,
+                         'symmetric': False, 'labels': mk_seed('arr', [-1] * n)})        # refused: no seed
+            jobs.append({'kind': 'diff', 'graph': g, 'n_iter': 2, 'centering': rng.random() < 0.5, 'scale': 5,
+                         'symmetric': False})                                            # labels=None
+            idx = [rng.randrange(n) for _ in range(n)]
+            jobs.append({'kind': 'link', 'graph': g, 'k': rng.choice([1, 2]), 'threshold': rng.choice([-0.5, -1]),
+                         'index': idx})
 
         # ---- 3. bipartite graphs (rectangular and square-forced through labels_row / labels_col)
         n_bip = int((14 if quick else 150) * scale)
@@ -1194,28 +1363,31 @@ def corpus_jobs():
     return out
 
 
-def run_checked_build(ctx, jobs):
+def run_checked_build(ctx, jobs, plain_results):
     """Thorough tier: the kernel jobs once more on the bounds-checked build of the working tree (Cython boundscheck,
-    _GLIBCXX_ASSERTIONS): an access outside a buffer raises or aborts instead of passing silently."""
+    _GLIBCXX_ASSERTIONS): an access outside a buffer raises or aborts instead of passing silently.  Time-outs are retried
+    alone as in the main pass; the reference answers are those of the main pass."""
     from vlib import overlay
     root, info = overlay.sync('checked')
-    sel = [j for j in jobs if j['kind'] in ('vote', 'prop')]
+    pick = [i for i, j in enumerate(jobs) if j['kind'] in ('vote', 'prop')]
+    sel = [jobs[i] for i in pick]
     results = run_jobs(ctx, sel, root=root)
-    plain = run_jobs(ctx, sel)
-    for job, res, ref in zip(sel, results, plain):
+    _retry_timeouts(ctx, sel, results, root=root)
+    for job, res, ref in zip(sel, results, [plain_results[i] for i in pick]):
         ctx.count('checked-build:' + job['kind'])
         if res is None or res['status'] == 'skipped':
             continue
         bad = None
         if res['status'] in ('crash', 'timeout'):
-            bad = 'the bounds-checked build %s' % ('aborted (%s)' % res.get('detail') if res['status'] == 'crash' else 'did not return')
+            bad = 'the bounds-checked build %s' % ('aborted (%s)' % res.get('detail') if res['status'] == 'crash' else
+                                                   'did not return within %.0f s, nor within %.0f s alone' % (JOB_TIMEOUT, RETRY_TIMEOUT))
         elif res['status'] == 'err' and (ref is None or ref.get('status') != 'err'):
             bad = 'the bounds-checked build raises %s: %s' % (res['err'], res.get('msg'))
         elif res['status'] == 'ok' and ref is not None and ref.get('status') == 'ok' and res.get('labels') != ref.get('labels'):
             bad = 'the bounds-checked build answers %s, the plain build %s' % (res.get('labels'), ref.get('labels'))
         if bad:
             ctx.case(('checked', json.dumps(job, sort_keys=True)), True)
-            ctx.spec_fail(dict(job_sig(job), failure='out-of-bounds'), job, {'what': bad})
+            ctx.spec_fail(dict(job_sig(job), failure='out-of-bounds', check='checked-build'), job, {'what': bad})
     ctx.extra['checked_build'] = {'jobs': len(sel), 'overlay': info}
 
 
@@ -1225,9 +1397,9 @@ def run(ctx):
     jobs = corpus_jobs()
     ctx.count('corpus', len(jobs))
     jobs += gen_jobs(ctx, scale=1.0 if ctx.quick else 8.0)
-    run_and_evaluate(ctx, jobs)
+    results = run_and_evaluate(ctx, jobs)
     if not ctx.quick:
-        run_checked_build(ctx, jobs)
+        run_checked_build(ctx, jobs, results)
 
 
 def search(ctx, pending):
@@ -1250,7 +1422,7 @@ def search(ctx, pending):
 
 
 def replay(ctx, payload):
-    job = payload.get('case')
+    job = payload.get('case') or (payload.get('what_no_longer_checks') or {}).get('case')
     if not isinstance(job, dict) or 'kind' not in job:
         jobs = corpus_jobs() + gen_jobs(ctx, mode='search')
     else:
